@@ -20,7 +20,7 @@ def make_model(name, out, n_args, A, max_trailing=2, require=True):
         nt = min(o % 3 + (1 if k is None else 0), max_trailing)
         trailing.append([A.dim('%s.o%d.t%d' % (name, o, j)) for j in range(nt)])
     rw = RowWise(name, k, tk, trailing, recording=A.scope is not None)
-    m = Opaque(name, 'model', {'rowwise': rw, 'training': z3.Bool(name + '.training0'), 'require_eval_nograd': require,
+    m = Opaque(name, 'model', {'rowwise': rw, 'training': z3.Bool(name + '.training0'), 'sub_training': z3.Bool(name + '.sub_training0'), 'require_eval_nograd': require,
                                'n_args': n_args, 'types': ['model']})
     return m
 
